@@ -16,7 +16,7 @@ the incomplete flag and the extractor's result. -/
 theorem C18_saved_metadata (ao : AliasOracle) (cfg : OpCfg) (s : St) (p : Prog) (a : Active)
     (hidle : s.Idle) (hen : s.enabled = true) (hsk : cfg.params.skipped = false)
     (hact : (atFinally cfg s p).active = some a)
-    (hkeep : keepDecision (atFinally cfg s p).forced cfg.params (headDraw s) = true) (hsv : cfg.saveFails = false) :
+    (hkeep : keepDecision (atFinally cfg s p).forced cfg.params (headDraw s) = true) (hsv : cfg.saveFailsOn a.data = false) :
     ∃ rec, (runOperation ao cfg s p).1.store = rec :: s.store ∧ rec.id = s.nextId ∧ rec.data = a.data ∧
       rec.md.cls = cfg.cls ∧
       rec.md.excFlag = excFlagOf (runOperation ao cfg s p).2 ∧
